@@ -4,7 +4,7 @@ import Mathlib.Tactic.SplitIfs
 
 /-! # Tie: `Model.graph_with_sympy_numbers` (generated from cellmlmanip/model.py) = `C09.stripGraph` (hand model) -/
 
-namespace Cellml.Tie
+namespace Cellml.Tie.PGraph
 open C09 Cellml.Gen
 
 theorem eqnOf_lhs {eqs : List Eqn} {n : Node} {e : Eqn} (h : eqnOf eqs n = some e) : e.lhs = n := by
@@ -183,4 +183,4 @@ theorem graphNum_error (eqs : List Eqn) (dummies : Eqn → List Nat) (e : PyErr)
   unfold GraphNum.graphWithSympyNumbers numView
   simp [bind, Except.bind]
 
-end Cellml.Tie
+end Cellml.Tie.PGraph
